@@ -21,6 +21,7 @@ import (
 	v1 "github.com/fatedier/frp/pkg/config/v1"
 	"github.com/fatedier/frp/pkg/msg"
 	netpkg "github.com/fatedier/frp/pkg/util/net"
+	"github.com/fatedier/frp/pkg/util/vhost"
 	"github.com/fatedier/frp/pkg/util/util"
 
 	"verifharness/hx"
@@ -127,6 +128,80 @@ func runQuicEnd(cfg *hx.RunCfg) error {
 			}
 			ok++
 		}()
+	}
+	// a refused login holds nothing, not even its connection: the server hangs up itself although the peer
+	// keeps its end open (a handler that waits for the peer to go away pins a goroutine and a descriptor per
+	// refused login)
+	{
+		addr := loop(9)
+		srv, err := hx.StartServer(addr, nil)
+		if err != nil {
+			return err
+		}
+		for i := 0; i < 3; i++ {
+			conn, err := srv.Dial()
+			if err != nil {
+				fail("refused-login-harness", err.Error())
+				break
+			}
+			ts := time.Now().Unix()
+			lm := &msg.Login{Version: "0.61.0", Hostname: "h", Os: "linux", Arch: "amd64",
+				PrivilegeKey: util.GetAuthKey(hx.DefaultToken+"-wrong", ts), Timestamp: ts, Metas: map[string]string{}}
+			_ = msg.WriteMsg(conn, lm)
+			_ = conn.SetReadDeadline(time.Now().Add(3 * time.Second))
+			var resp msg.LoginResp
+			if err := msg.ReadMsgInto(conn, &resp); err != nil || resp.Error == "" {
+				fail("refused-login-harness", fmt.Sprint("a login with a wrong key was not refused: ", err))
+				conn.Close()
+				break
+			}
+			trials++
+			if !hx.ConnClosedWithin(conn, 2*time.Second) {
+				fails = append(fails, map[string]string{"key": "refused-login-keeps-connection",
+					"what": "2 s after LoginResp{Error} the server still holds the connection of a refused login whose peer does not hang up",
+					"case": "Login with a wrong key; read LoginResp; keep the connection open"})
+				conn.Close()
+				break
+			}
+			ok++
+			conn.Close()
+		}
+		srv.Close()
+	}
+	// a user connection WAITING in the hand-over to an https / tcpmux listener when the listener closes (its
+	// owner is not in Accept at that instant: a legal schedule of the proxy's accept loop) must be closed, not
+	// left blocked for ever.  Real vhost.HTTPSMuxer and Listener, nobody accepts, then Close.
+	{
+		addr := loop(9)
+		ln, err := net.Listen("tcp", net.JoinHostPort(addr, "0"))
+		if err != nil {
+			return err
+		}
+		mux, err := vhost.NewHTTPSMuxer(ln, 5*time.Second)
+		if err == nil {
+			l, lerr := mux.Listen(context.Background(), &vhost.RouteConfig{Domain: "handoff.test"})
+			uc, derr := net.DialTimeout("tcp", ln.Addr().String(), time.Second)
+			if lerr != nil || derr != nil {
+				fail("handoff-harness", fmt.Sprint("cannot set up the muxer: ", lerr, derr))
+			} else {
+				go func() {
+					tc := tls.Client(&passConn{Conn: uc}, &tls.Config{ServerName: "handoff.test", InsecureSkipVerify: true})
+					_ = tc.Handshake()
+				}()
+				time.Sleep(200 * time.Millisecond) // the muxer has read the hello and waits in the hand-over
+				trials++
+				l.Close()
+				if !hx.ConnClosedWithin(uc, 2*time.Second) {
+					fails = append(fails, map[string]string{"key": "user-conn-open-after-listener-close",
+						"what": "a user connection that was waiting in the hand-over to an https listener when the listener closed is still open 2 s later",
+						"case": "vhost.HTTPSMuxer + Listen(handoff.test); TLS ClientHello; nobody accepts; Listener.Close()"})
+				} else {
+					ok++
+				}
+				uc.Close()
+			}
+		}
+		ln.Close()
 	}
 	cfg.St["cases"] = trials
 	cfg.St["distinct_nontrivial"] = ok
